@@ -177,6 +177,21 @@ _feas_cache = {}
 STATS = {"feas_calls": 0, "feas_secs": 0.0, "feas_cvc5": 0}
 
 
+def cross_check(queries, timeout=20, workers=None):
+    """put each already-`unsat` query to the back end that did NOT answer it; q.cross = unsat | sat | unknown"""
+    workers = workers or min(16, (os.cpu_count() or 4))
+
+    def one(q):
+        fn = run_z3 if (q.backend or "").startswith("cvc5") else run_cvc5
+        st, out, secs = fn(q.text, timeout)
+        q.cross = st if st in ("sat", "unsat") else "unknown"
+        q.cross_secs = secs
+        return q
+    with ThreadPoolExecutor(max_workers=workers) as ex:
+        list(ex.map(one, queries))
+    return queries
+
+
 def _has_strings(assertions):
     seen = set()
     stack = list(assertions)
